@@ -20,7 +20,7 @@ from checks.c01 import ARGV_KINDS, ENV_KINDS, gen_env, gen_vec
 
 PROP = "C16"
 U = 12345
-STATE_KEYS = ["fds", "environ_ptr", "environ_hash", "cwd_id", "cwd", "umask", "sigmask", "sigact", "ids"]
+STATE_KEYS = ["fds", "environ_ptr", "environ_hash", "cwd_id", "cwd", "umask", "sigmask", "sigact", "sigpend", "ids"]
 
 
 def norm_state(key, v):
@@ -79,6 +79,10 @@ def make_runs(tr, n):
         r["sigblock"] = [sg for sg in (13, 10, 17, 1) if rng.random() < 0.25]
         r["sigign"] = [sg for sg in (13, 1, 12) if rng.random() < 0.15]
         r["preerrno"] = rng.choice([0, 0, 34, 4, 2, 22])
+        # stdout / stderr as a pipe whose reader is gone: a write there raises SIGPIPE, which stays *pending* for a caller that has it blocked
+        r["closeout"] = rng.choice([None] * 5 + ["stdout", "stderr"])
+        if r["closeout"] and 13 not in r["sigblock"] and rng.random() < 0.6:
+            r["sigblock"].append(13)
         r["confstate"] = rng.choice(["file"] * 8 + ["absent", "unreadable", "directory"])
     return runs
 
@@ -87,6 +91,9 @@ def plan(r, B):
     import random
     rng = random.Random(r["sub"])
     conf = gen_conf(rng, B)
+    if r.get("closeout") and r["sub"] % 4:
+        # the output that writes to the descriptor whose reader is gone
+        conf = b"\n".join((b"output = " + r["closeout"].encode()) if ln.startswith(b"output = ") else ln for ln in conf.split(b"\n"))
     calls = []
     for k in range(r["ncalls"] + 1):
         tok = "R%dK%d" % (r["id"], k)
@@ -126,6 +133,8 @@ def script_fn(r, B, s):
     for sg in r["sigign"]:
         s.raw("sigign %d" % sg)
     s.raw("preerrno %d" % r["preerrno"])
+    if r.get("closeout"):
+        s.raw("closeout " + r["closeout"])
     s.conf(conf)
     if r["confstate"] == "absent":
         s.raw("confrm")
